@@ -2,7 +2,7 @@
 
 STAGE_FILES = {}
 
-LIB = ['Base/Outcome', 'Base/Ctl', 'Base/Bits', 'Base/Finite', 'Base/Tree', 'Base/Machine', 'Impl']
+LIB = ['Base/Outcome', 'Base/Ctl', 'Base/Bits', 'Base/Finite', 'Base/Tree', 'Base/Machine', 'Impl', 'NonVacuity']
 
 def ps2_prop(pid, extra_lib, corr='Corr/Ps2Bits'):
     return {
